@@ -233,7 +233,7 @@ def main():
             defaults["pmt"] = text
             json.dump(defaults, open(DEFAULTS_PATH, "w"))
             print("wrote pmt to " + DEFAULTS_PATH)
-    except (ParseError, OSError, ValueError, KeyError, IndexError) as ex:
+    except Exception as ex:  # anything unexpected in the source: fall back, never crash
         print("gen_pmt: could not extract (recorded translation used; tie by correspondence only): PMT stream loop (%s)" % ex, file=sys.stderr)
         text = defaults.get("pmt")
         if text is None:
